@@ -186,4 +186,200 @@ theorem safe_emitLeftM : ∀ (xs : List (String × Node)) (r : AMap Node), (∀ 
     · exact safe_emitLeftM rest r (fun e he => hs e (List.mem_cons_of_mem _ he)) hr m h
 end
 
+/-! ## paths as component lists -/
+
+def compsA : Comp → AP → List Comp
+  | cur, .leaf _ => [cur]
+  | cur, .idx i m => compsA (cur.1, cur.2 ++ [i]) m
+  | cur, .key k m => cur :: compsA (k, []) m
+
+theorem pathA_comps : ∀ (m : AP) (p0 : String) (cur : Comp), pathA (extend p0 cur) m = renderFrom p0 (compsA cur m)
+  | .leaf _, p0, cur => by simp [pathA, compsA, renderFrom]
+  | .idx i m, p0, cur => by
+    obtain ⟨k, is⟩ := cur
+    simp only [pathA, compsA]
+    rw [extend_snoc]
+    exact pathA_comps m p0 (k, is ++ [i])
+  | .key k m, p0, cur => by
+    simp only [pathA, compsA]
+    have : toPath (extend p0 cur) k = extend (extend p0 cur) (k, []) := by simp [extend]
+    rw [this, pathA_comps m (extend p0 cur) (k, [])]
+    simp [renderFrom]
+
+theorem compsA_ne_nil : ∀ (m : AP) (cur : Comp), compsA cur m ≠ []
+  | .leaf _, _ => by simp [compsA]
+  | .idx i m, cur => by simp only [compsA]; exact compsA_ne_nil m _
+  | .key k m, cur => by simp [compsA]
+
+theorem compsA_safe : ∀ (m : AP) (cur : Comp), SafeKey cur.1 → m.Safe → ∀ x ∈ compsA cur m, SafeKey x.1
+  | .leaf _, cur, hc, _, x, hx => by
+    simp only [compsA, List.mem_singleton] at hx; subst hx; exact hc
+  | .idx i m, cur, hc, hm, x, hx => compsA_safe m (cur.1, cur.2 ++ [i]) hc hm x hx
+  | .key k m, cur, hc, hm, x, hx => by
+    simp only [compsA, List.mem_cons] at hx
+    rcases hx with rfl | hx
+    · exact hc
+    · exact compsA_safe m (k, []) hm.1 hm.2 x hx
+
+def strOf (c : Comp) : String := String.ofList (compStr c)
+
+theorem strOf_nil (k : String) : strOf (k, []) = k := by
+  simp [strOf, compStr, groups, String.ofList_toList]
+
+def wrapIdx (is : List Nat) (m : AP) : AP := is.foldr AP.idx m
+
+theorem wrapIdx_snoc (is : List Nat) (i : Nat) (m : AP) : wrapIdx (is ++ [i]) m = wrapIdx is (.idx i m) := by
+  simp [wrapIdx, List.foldr_append]
+
+/-! ## the model's list / slot functions in terms of `actA` -/
+
+theorem nodeList_getD (o : Option Node) :
+    (match o with | some (.list xs) => xs | _ => []) = nodeList (o.getD Node.null) := by
+  cases o with
+  | none => rfl
+  | some n => cases n <;> rfl
+
+theorem nodeCont_getD (o : Option Node) :
+    (match o with | some (.cont c) => c | _ => []) = nodeCont (o.getD Node.null) := by
+  cases o with
+  | none => rfl
+  | some n => cases n <;> rfl
+
+theorem setSlot_cons (o : Option Node) (i : Nat) (is : List Nat) (v : Node) :
+    setSlot o (i :: is) v = .list ((padTo (nodeList (o.getD Node.null)) (i + 1)).set i
+      (setSlot (padTo (nodeList (o.getD Node.null)) (i + 1))[i]? is v)) := by
+  cases o with
+  | none => rfl
+  | some n => cases n <;> rfl
+
+theorem setSlot_eq_actA (m : AP) (v : Node) (hm : ∀ n, actA m n = v) : ∀ (is : List Nat) (o : Option Node),
+    setSlot o is v = actA (wrapIdx is m) (o.getD Node.null)
+  | [], _ => (hm _).symm
+  | i :: is, o => by
+    rw [setSlot_cons, setSlot_eq_actA m v hm is]
+    simp only [wrapIdx, List.foldr_cons, actA]
+    rw [← List.getD_eq_getElem?_getD, getD_padTo]
+
+theorem actA_wrapIdx_cons (i : Nat) (is : List Nat) (m : AP) (n : Node) :
+    actA (wrapIdx (i :: is) m) n = actA (wrapIdx (i :: is) m) (.list (nodeList n)) := rfl
+
+theorem getD_of_getElem? {xs : List Node} {i : Nat} {y : Node} (h : xs[i]? = some y) : xs.getD i Node.null = y := by
+  rw [List.getD_eq_getElem?_getD, h]; rfl
+
+theorem lt_of_getElem? {xs : List Node} {i : Nat} {y : Node} (h : xs[i]? = some y) : i < xs.length := by
+  rcases Nat.lt_or_ge i xs.length with hlt | hge
+  · exact hlt
+  · rw [List.getElem?_eq_none hge] at h; cases h
+
+theorem applyListWith_eq (F : AMap Node → AMap Node) (mk : AP) (hF : ∀ n, actA mk n = .cont (F (nodeCont n))) :
+    ∀ (is : List Nat) (xs : List Node), is ≠ [] →
+      Node.list (applyListWith F xs is) = actA (wrapIdx is mk) (.list xs)
+  | [], _, h => absurd rfl h
+  | [i], xs, _ => by
+    simp only [applyListWith, wrapIdx, List.foldr_cons, List.foldr_nil, actA, nodeList]
+    rw [hF]
+    cases hx : xs[i]? with
+    | none =>
+      have : xs.getD i Node.null = Node.null := by rw [List.getD_eq_getElem?_getD, hx]; rfl
+      simp only [this, listSet]
+      rfl
+    | some y =>
+      have hi := lt_of_getElem? hx
+      rw [getD_of_getElem? hx]
+      cases y with
+      | cont c => simp only [nodeCont]; rw [padTo_of_le (Nat.succ_le_of_lt hi)]
+      | leaf _ => simp only [listSet, nodeCont]
+      | list _ => simp only [listSet, nodeCont]
+  | i :: j :: is, xs, _ => by
+    have ih := fun ys => applyListWith_eq F mk hF (j :: is) ys (by simp)
+    have e : actA (wrapIdx (i :: j :: is) mk) (.list xs) =
+        .list ((padTo xs (i + 1)).set i (actA (wrapIdx (j :: is) mk) (xs.getD i Node.null))) := rfl
+    rw [e, actA_wrapIdx_cons]
+    simp only [applyListWith]
+    cases hx : xs[i]? with
+    | none =>
+      have : xs.getD i Node.null = Node.null := by rw [List.getD_eq_getElem?_getD, hx]; rfl
+      simp only [this, listSet, ih]
+      rfl
+    | some y =>
+      have hi := lt_of_getElem? hx
+      rw [getD_of_getElem? hx]
+      cases y with
+      | list ys => simp only [nodeList, ih]; rw [padTo_of_le (Nat.succ_le_of_lt hi)]
+      | leaf _ => simp only [listSet, nodeList, ih]
+      | cont _ => simp only [listSet, nodeList, ih]
+
+/-! ## `applySingle` on rendered modifications -/
+
+theorem applyAddSegs_comps : ∀ (m : AP) (k : String) (is : List Nat) (kvs : AMap Node), SafeKey k → m.Safe →
+    applyAddSegs kvs ((compsA (k, is) m).map strOf) (valA m) =
+      AMap.insert kvs k (actA (wrapIdx is m) ((AMap.get? kvs k).getD Node.null))
+  | .leaf v, k, is, kvs, hk, _ => by
+    simp only [compsA, List.map_cons, List.map_nil, applyAddSegs, valA]
+    have hseg : parseSeg (strOf (k, is)) = (k, is) := parseSeg_compStr (c := (k, is)) hk
+    rw [add_eq_of_parse kvs _ hseg]
+    by_cases e : is = []
+    · subst e
+      simp only [if_true, strOf_nil]
+      rfl
+    · simp only [if_neg e]
+      rw [setSlot_eq_actA (.leaf v) (.leaf v) (fun _ => rfl) is]
+  | .idx i m, k, is, kvs, hk, hm => by
+    simp only [compsA, valA]
+    rw [applyAddSegs_comps m k (is ++ [i]) kvs hk hm, wrapIdx_snoc]
+  | .key k' m, k, is, kvs, hk, hm => by
+    obtain ⟨c2, rest, hrest⟩ := List.exists_cons_of_ne_nil (compsA_ne_nil m (k', []))
+    have ihF : ∀ sub, applyAddSegs sub (strOf c2 :: rest.map strOf) (valA m) =
+        AMap.insert sub k' (actA m ((AMap.get? sub k').getD Node.null)) := by
+      intro sub
+      have := applyAddSegs_comps m k' [] sub hm.1 hm.2
+      rw [hrest] at this
+      simpa [wrapIdx] using this
+    have hF : ∀ n, actA (.key k' m) n =
+        .cont ((fun sub => applyAddSegs sub (strOf c2 :: rest.map strOf) (valA m)) (nodeCont n)) := by
+      intro n
+      simp only [actA]
+      rw [ihF]
+    have hns := hasIdxSuffix_safeKey hk
+    simp only [compsA, valA]
+    rw [hrest]
+    simp only [List.map_cons, applyAddSegs]
+    rw [show parseListComp (strOf (k, is)) = if is = [] then none else some (k, is) from
+      parseListComp_compStr (c := (k, is)) hk]
+    cases is with
+    | nil =>
+      simp only [if_true, strOf_nil]
+      rw [child_of_noSuffix kvs hns, add_of_noSuffix kvs _ hns]
+      show _ = AMap.insert kvs k (actA (.key k' m) ((AMap.get? kvs k).getD Node.null))
+      rw [hF]
+      cases AMap.get? kvs k with
+      | none => rfl
+      | some n => cases n <;> rfl
+    | cons i is =>
+      simp only [if_neg (List.cons_ne_nil i is)]
+      rw [child_of_noSuffix kvs hns, add_of_noSuffix kvs _ hns,
+        applyListWith_eq _ (.key k' m) hF (i :: is) _ (by simp),
+        actA_wrapIdx_cons i is _ ((AMap.get? kvs k).getD Node.null)]
+      cases AMap.get? kvs k with
+      | none => rfl
+      | some n => cases n <;> rfl
+
+theorem applyDelSegs_keys : ∀ (ks : List String) (kvs : AMap Node), (∀ k ∈ ks, SafeKey k) →
+    applyDelSegs kvs ks = delK ks kvs
+  | [], _, _ => rfl
+  | [k], _, _ => rfl
+  | k :: k2 :: ks, kvs, h => by
+    have hns := hasIdxSuffix_safeKey (h k (List.mem_cons_self ..))
+    simp only [applyDelSegs, delK]
+    rw [child_of_noSuffix kvs hns]
+    cases AMap.get? kvs k with
+    | none => rfl
+    | some n =>
+      cases n with
+      | leaf _ => rfl
+      | list _ => rfl
+      | cont sub =>
+        simp only
+        rw [add_of_noSuffix kvs _ hns, applyDelSegs_keys (k2 :: ks) sub (fun x hx => h x (List.mem_cons_of_mem _ hx))]
+
 end Ytk
